@@ -20,6 +20,11 @@ NA = {
 }
 
 CLAIMS = {
+    'C08': dict(
+        category='exploration', technique='deterministic simulation: seeded operation histories with a scheduled heap (harness-owned references, gc disabled, drop/collect as steps deciding when finalizers release IDs), invariant after every step',
+        engine='history-machine+E3-heap',
+        text='Seeded histories over two maps: entities, solids, sides, prisms, visgroups and groups created with desired IDs (negative, zero, duplicates of live IDs, huge), copy() within and across maps, add/remove/re-add, nodeid edits, fixup set/delete/construct/copy, export+parse and generated documents with colliding/zero/missing IDs, interleaved with heap events (drop the last reference, collect) under a seeded GC policy, so the finalizer that releases an ID runs before, between or after removal and re-issue. After every step the IDs of live objects of each kind (reachable from the map or held and never removed) must be pairwise distinct positive integers; fixup indexes distinct and >= 1.',
+        note='preserve_ids=True maps exempt; live-set definition stated in evidence assumptions; histories sampled.', ref='5/C08'),
     'C06': dict(
         category='exploration', technique='deterministic simulation: maps reached by seeded API histories, exported through a simulated text file (host newline mode) and delivered to the parser under seeded chunk/file schedules; observation walker + ID bijection as oracle',
         engine='history-machine+E1-stream+E2-simfs',
